@@ -984,7 +984,13 @@ func (hash *SexpHash) SexpString(ps *PrintState) string {
 			onKey++
 			switch s := key.(type) {
 			case *SexpStr:
-				str += indInner + `"` + s.S + `":`
+				// a string key is written like any other string: with
+				// its escapes, so that the printed hash reads back.
+				if asJSON {
+					str += indInner + jsonQuote(s.S) + ":"
+				} else {
+					str += indInner + s.SexpString(innerPs) + ":"
+				}
 			case *SexpSymbol:
 				if asJSON {
 					str += indInner + `"` + s.name + `":`
